@@ -22,6 +22,11 @@ const P = "C08"
 
 func isASCII(s string) bool { return !alpha.HasNonASCII(s) }
 
+// genName draws a domain / workstation / user / target name: empty, from the full alphabet (Unicode mode only;
+// alpha.String has its own long tail) or 7-bit ASCII 0x20..0x7E, spaces included. ASCII names are the only ones
+// the OEM character set is judged on, so they have the same long-tail length class as the others: mostly 1..15
+// characters, one in twelve 16..315 (beyond the 15-byte NetBIOS, 20-character account, 64 and 255 limits at which
+// an implementation is tempted to cut).
 func genName(t *rapid.T, label string, unicode bool) string {
 	switch rapid.IntRange(0, 5).Draw(t, label+"Class") {
 	case 0:
@@ -32,9 +37,12 @@ func genName(t *rapid.T, label string, unicode bool) string {
 		}
 	}
 	n := rapid.IntRange(1, 15).Draw(t, label+"Len")
+	if rapid.IntRange(0, 11).Draw(t, label+"LenClass") == 11 {
+		n = 15 + rapid.IntRange(1, alpha.LongTail).Draw(t, label+"LongLen")
+	}
 	b := make([]byte, n)
 	for i := range b {
-		b[i] = byte(rapid.IntRange(0x21, 0x7e).Draw(t, label+"Ch"))
+		b[i] = byte(rapid.IntRange(0x20, 0x7e).Draw(t, label+"Ch"))
 	}
 	return string(b)
 }
@@ -56,6 +64,48 @@ func sameName(payload []byte, supplied string, unicode bool, foldCase bool) bool
 		return true
 	}
 	return foldCase && bytes.Equal(payload, []byte(alpha.UpperString(supplied)))
+}
+
+// plausibleOEM: could payload be supplied in some OEM (8-bit or multi-byte) code page? Which code page that is
+// is not specified, so for non-ASCII text only what every such encoding has in common is demanded: each rune
+// takes at least one byte and at most four, the 7-bit runes of the name appear as themselves (modulo
+// upper-casing), in their order, and a zero byte stands for nothing but U+0000. UTF-16 text (of anything but
+// U+0000s) is thereby not an OEM payload.
+func plausibleOEM(payload []byte, supplied string) bool {
+	runes, nuls := 0, 0
+	at := 0
+	for _, r := range supplied {
+		runes++
+		if r == 0 {
+			nuls++
+		}
+		if r > 0x7f {
+			continue
+		}
+		for at < len(payload) && payload[at] != byte(r) && payload[at] != byte(alpha.Upper(r)) {
+			at++
+		}
+		if at == len(payload) {
+			return false
+		}
+		at++
+	}
+	return len(payload) >= runes && len(payload) <= 4*runes && bytes.Count(payload, []byte{0}) == nuls
+}
+
+// negotiateName: is payload the name a NEGOTIATE message was built for? NEGOTIATE names are OEM on the wire per
+// MS-NLMP 2.2.1.1; the library writes them in the character set it announces, which the property words as "the
+// negotiated character set". Either is accepted as long as the payload is an encoding of the supplied name:
+// UTF-16LE when Unicode was requested, or the OEM form - judged exactly for 7-bit names, by plausibleOEM for
+// others.
+func negotiateName(payload []byte, supplied string, unicode bool) bool {
+	if unicode && sameName(payload, supplied, true, true) {
+		return true
+	}
+	if isASCII(supplied) {
+		return sameName(payload, supplied, false, true)
+	}
+	return plausibleOEM(payload, supplied)
 }
 
 // ---- NEGOTIATE ----------------------------------------------------------------------------------
@@ -91,14 +141,12 @@ func checkNegotiateMsg(who string, msg []byte, c negCase) []vf.Finding {
 	if uni != c.Unicode || (!c.Unicode && !oem) {
 		fs = append(fs, vf.F(who, "charset-flags-differ-from-request", "flags %#x for unicode=%v", n.Flags, c.Unicode))
 	}
-	// NEGOTIATE names are always OEM on the wire per MS-NLMP 2.2.1.1 ("DomainName ... in OEM character set");
-	// the library writes them in the charset it announces, which the property words as "the negotiated
-	// character set": accept either, as long as the payload is an encoding of the supplied name.
+	// either character set, as long as the payload is an encoding of the supplied name (see negotiateName)
 	for _, f := range []struct {
 		fld  nlmp.Field
 		name string
 	}{{n.Domain, c.Domain}, {n.Workstation, c.Workstation}} {
-		if !(sameName(f.fld.Data, f.name, c.Unicode, true) || sameName(f.fld.Data, f.name, false, true)) {
+		if !negotiateName(f.fld.Data, f.name, c.Unicode) {
 			fs = append(fs, vf.F(who, "name-bytes-differ-from-charset-encoding", "%s: payload %x for %q (unicode %v)", f.fld.Name, f.fld.Data, f.name, c.Unicode))
 		}
 	}
@@ -238,10 +286,17 @@ func checkChallenge(c chalCase) []vf.Finding {
 	if judgeInfo && !bytes.Equal(got.TargetInfo, ch.TargetInfo) {
 		fs = append(fs, vf.F("ntlm.ParseChallengeMessage", "target-info-differs", "got %d bytes want %d (info first %v, gaps %d/%d)", len(got.TargetInfo), len(ch.TargetInfo), c.InfoFirst, len(c.Gap0), len(c.Gap1)))
 	}
-	if c.Flags&nlmp.FlagVersion != 0 {
-		v, _ := got.Version.Marshal()
-		if !bytes.Equal(v, c.Version) {
-			fs = append(fs, vf.F("ntlm.ParseChallengeMessage", "version-differs", "got %x want %x", v, []byte(c.Version)))
+	if c.Flags&nlmp.FlagVersion != 0 && len(c.Version) == 8 {
+		// MS-NLMP 2.2.2.10, decoded here from the bytes that were sent: major, minor, build (16 bits, little-endian),
+		// three reserved bytes ("MUST be ignored by the recipient": not judged), NTLM revision
+		v := got.Version
+		major, minor, build, rev := c.Version[0], c.Version[1], uint16(c.Version[2])|uint16(c.Version[3])<<8, c.Version[7]
+		if v.ProductMajorVersion != major || v.ProductMinorVersion != minor || v.ProductBuild != build || v.NTLMRevision != rev {
+			fs = append(fs, vf.F("ntlm.ParseChallengeMessage", "version-differs", "wire %x: got %d.%d build %d revision %d, want %d.%d build %d revision %d", []byte(c.Version),
+				v.ProductMajorVersion, v.ProductMinorVersion, v.ProductBuild, v.NTLMRevision, major, minor, build, rev))
+		} else if m, err := v.Marshal(); err != nil || len(m) != 8 || !bytes.Equal(m[:4], c.Version[:4]) || m[7] != rev {
+			// and the value that was parsed correctly goes back on the wire as it came
+			fs = append(fs, vf.F("ntlm.ParseChallengeMessage", "version-differs", "parsed %d.%d build %d revision %d from %x, re-encoded as %x (err %v)", major, minor, build, rev, []byte(c.Version), m, err))
 		}
 	}
 	if c.HasInfo {
@@ -340,6 +395,71 @@ func TestChallengeParse(t *testing.T) {
 // refuse to answer it (MS-NLMP 3.1.5.1.2: SEC_E_INVALID_TOKEN); an answer it does build is judged like any other.
 func (c chalCase) noCharset() bool { return c.Flags&(nlmp.FlagUnicode|nlmp.FlagOEM) == 0 }
 
+const flagKeyExch = 0x40000000 // NTLMSSP_NEGOTIATE_KEY_EXCH
+
+func is7bit(s string) bool {
+	for i := 0; i < len(s); i++ {
+		if s[i] >= 0x80 {
+			return false
+		}
+	}
+	return true
+}
+
+// checkResponseFields: the three descriptors of an AUTHENTICATE that do not carry names designate their own
+// fields too. c is the CHALLENGE that is answered, id the identity the answer was built for.
+//
+//   - NtChallengeResponseFields -> bytes that verify as the NT response to this challenge: DESL(NTOWFv1, server
+//     challenge) without extended session security, otherwise an NTLMv2 response under the names the message
+//     carries (judged when those names can be read back: Unicode, or 7-bit names in OEM);
+//   - LmChallengeResponseFields -> exactly 24 bytes: with NTLMv2 the LMv2 response or Z(24) (MS-NLMP 3.1.5.1.2),
+//     with NTLMv1 DESL(LMOWFv1, challenge) (content judged for 7-bit passwords only), a copy of the NT response
+//     (the NoLMResponseNTLMv1 form) or Z(24);
+//   - EncryptedRandomSessionKeyFields -> nothing, or 16 bytes when the message's own flags announce a key
+//     exchange. A message that announces one and carries no key is not judged (the library implements none).
+//
+// Bytes of the payload that no descriptor designates remain allowed; a field's own bytes must be designated.
+func checkResponseFields(who, pre string, a *nlmp.Authenticate, c chalCase, id identity) []vf.Finding {
+	var fs []vf.Finding
+	nt := refcrypto.NT(id.Password)
+	unicode := c.Flags&nlmp.FlagUnicode != 0
+	if len(a.LM.Data) != 24 {
+		fs = append(fs, vf.F(who, pre+"lm-response-descriptor-not-24-bytes", "LmChallengeResponseFields designates %d bytes at %d (NtChallengeResponseFields: %d bytes at %d)", a.LM.Len, a.LM.Offset, a.NT.Len, a.NT.Offset))
+	}
+	if c.Flags&nlmp.FlagExtSec != 0 {
+		if unicode || isASCII(id.User+id.Domain) {
+			user, domain := string(a.User.Data), string(a.Domain.Data)
+			if unicode {
+				user, domain = decodeUTF16(a.User.Data), decodeUTF16(a.Domain.Data)
+			}
+			for _, p := range nlmp.VerifyNTLMv2(nt, user, domain, c.ServerChallenge, a.NT.Data, nil) {
+				fs = append(fs, vf.F(who, pre+"v2-response-does-not-verify", "server challenge %x: %s", []byte(c.ServerChallenge), p))
+			}
+			if len(a.LM.Data) == 24 && !bytes.Equal(a.LM.Data, make([]byte, 24)) {
+				key := refcrypto.NTOWFv2(nt, user, domain)
+				if want := refcrypto.HMACMD5(key, c.ServerChallenge, a.LM.Data[16:]); !bytes.Equal(want, a.LM.Data[:16]) {
+					fs = append(fs, vf.F(who, pre+"lm-response-does-not-verify", "LmChallengeResponse %x is neither an LMv2 response to server challenge %x nor Z(24)", a.LM.Data, []byte(c.ServerChallenge)))
+				}
+			}
+		}
+	} else {
+		want := refcrypto.DESL(nt[:], c.ServerChallenge)
+		if !bytes.Equal(a.NT.Data, want) {
+			fs = append(fs, vf.F(who, pre+"v1-response-does-not-verify", "server challenge %x: NtChallengeResponse %x, DESL(NT hash, challenge) = %x", []byte(c.ServerChallenge), a.NT.Data, want))
+		}
+		if len(a.LM.Data) == 24 && is7bit(id.Password) {
+			lm := refcrypto.DESL(refcrypto.LM(id.Password), c.ServerChallenge)
+			if !bytes.Equal(a.LM.Data, lm) && !bytes.Equal(a.LM.Data, want) && !bytes.Equal(a.LM.Data, make([]byte, 24)) {
+				fs = append(fs, vf.F(who, pre+"lm-response-does-not-verify", "LmChallengeResponse %x is neither DESL(LM hash, challenge) = %x, nor the NT response, nor Z(24)", a.LM.Data, lm))
+			}
+		}
+	}
+	if k := a.SessionKey.Len; k != 0 && !(k == 16 && a.Flags&flagKeyExch != 0) {
+		fs = append(fs, vf.F(who, pre+"session-key-descriptor-inconsistent-with-flags", "EncryptedRandomSessionKeyFields designates %d bytes, flags %#x (KEY_EXCH %v)", k, a.Flags, a.Flags&flagKeyExch != 0))
+	}
+	return fs
+}
+
 func checkAuthenticate(c chalCase) []vf.Finding {
 	_, _, wire := c.wire()
 	parsed, err := ntlm.ParseChallengeMessage(wire)
@@ -378,7 +498,7 @@ func checkAuthenticate(c chalCase) []vf.Finding {
 		fs = append(fs, vf.F("ntlm.CreateAuthenticateMessage", "header-shorter-than-88", "%d bytes", len(msg)))
 	}
 	// as for NEGOTIATE, padding bytes outside every descriptor are not judged
-	return fs
+	return append(fs, checkResponseFields("ntlm.CreateAuthenticateMessage", "", a, c, c.identity())...)
 }
 
 func TestAuthenticateStructure(t *testing.T) {
@@ -581,24 +701,8 @@ func processOnce(ctx *spnego.AuthContext, c chalCase, id identity, pre string, r
 			fs = append(fs, vf.F(who, pre+"name-bytes-differ-from-charset-encoding", "%s: payload %x for %q (unicode %v)", f.fld.Name, f.fld.Data, f.name, unicode))
 		}
 	}
-	// the response answers the challenge that was processed
-	if c.Flags&nlmp.FlagExtSec != 0 {
-		if unicode || isASCII(id.User+id.Domain) {
-			user, domain := string(a.User.Data), string(a.Domain.Data)
-			if unicode {
-				user, domain = decodeUTF16(a.User.Data), decodeUTF16(a.Domain.Data)
-			}
-			for _, p := range nlmp.VerifyNTLMv2(refcrypto.NT(id.Password), user, domain, c.ServerChallenge, a.NT.Data, nil) {
-				fs = append(fs, vf.F(who, pre+"v2-response-does-not-verify", "server challenge %x: %s", []byte(c.ServerChallenge), p))
-			}
-		}
-	} else {
-		nt := refcrypto.NT(id.Password)
-		if want := refcrypto.DESL(nt[:], c.ServerChallenge); !bytes.Equal(a.NT.Data, want) {
-			fs = append(fs, vf.F(who, pre+"v1-response-does-not-verify", "server challenge %x: NtChallengeResponse %x, DESL(NT hash, challenge) = %x", []byte(c.ServerChallenge), a.NT.Data, want))
-		}
-	}
-	return fs
+	// the response answers the challenge that was processed, and the other descriptors designate their fields
+	return append(fs, checkResponseFields(who, pre, a, c, id)...)
 }
 
 func (c chalCase) identity() identity { return identity{c.User, c.Password, c.Domain, c.Workstation} }
@@ -654,4 +758,102 @@ func TestProcessChallengeTwice(t *testing.T) {
 	}, checkProcessTwice, func(c twiceCase) bool { return !bytes.Equal(c.First.ServerChallenge, c.Second.ServerChallenge) })
 }
 
-var _ = fmt.Sprintf
+// ---- results-kept ---------------------------------------------------------------------------------
+//
+// Everything the two packages hand back as a slice (messages, tokens, the slices inside a parsed CHALLENGE and
+// the values of a parsed target info) is the caller's value. All builders and parsers are run for one set of
+// inputs and their results kept as returned; then all of them are run again for a second, different set; then
+// the kept results are compared with what they were when they were returned. The inputs handed to the library
+// are private copies that nobody writes to, so a result that legitimately aliases its input stays put too.
+
+type keptCase struct {
+	A    chalCase `json:"a"` // challenge and identity of the first round
+	B    chalCase `json:"b"` // ... of the second
+	TokA tokCase  `json:"tok_a"`
+	TokB tokCase  `json:"tok_b"`
+}
+
+type keptValue struct {
+	who      string
+	now, was []byte
+}
+
+// keptRound runs every builder and parser once and returns the slices they handed back, each with a copy made
+// at the moment it was returned. Errors are other sub-checks' business: a call that fails contributes nothing.
+func keptRound(c chalCase, tc tokCase) (ks []keptValue) {
+	keep := func(who string, b []byte, err error) {
+		if err == nil && b != nil {
+			ks = append(ks, keptValue{who, b, append([]byte{}, b...)})
+		}
+	}
+	unicode := c.Flags&nlmp.FlagUnicode != 0
+	neg, err := ntlm.CreateNegotiateMessage(c.Domain, c.Workstation, unicode)
+	keep("ntlm.CreateNegotiateMessage", neg, err)
+	ctx := spnego.NewAuthContext(spnego.AuthTypeNTLM, c.Domain, c.User, c.Password, c.Workstation, unicode)
+	negTok, err := ctx.CreateNegotiateToken()
+	keep("AuthContext.CreateNegotiateToken", negTok, err)
+	_, _, wire := c.wire()
+	if parsed, err := ntlm.ParseChallengeMessage(append([]byte{}, wire...)); err == nil && parsed != nil {
+		keep("ntlm.ParseChallengeMessage TargetName", parsed.TargetName, nil)
+		keep("ntlm.ParseChallengeMessage TargetInfo", parsed.TargetInfo, nil)
+		keep("ntlm.ParseChallengeMessage ServerChallenge", parsed.ServerChallenge[:], nil)
+		if m, err := ntlm.ParseTargetInfo(append([]byte{}, parsed.TargetInfo...)); err == nil {
+			for _, p := range c.Pairs { // in the order of the case, not of the map
+				keep(fmt.Sprintf("ntlm.ParseTargetInfo value of id %d", p.ID), m[p.ID], nil)
+			}
+		}
+		auth, err := ntlm.CreateAuthenticateMessage(parsed, c.User, c.Password, c.Domain, c.Workstation)
+		keep("ntlm.CreateAuthenticateMessage", auth, err)
+	}
+	tok := token(tc.Len, tc.Salt)
+	initTok, err := spnego.CreateNegTokenInit(append([]byte{}, tok...))
+	keep("spnego.CreateNegTokenInit", initTok, err)
+	if err == nil {
+		ex, err := spnego.ExtractNTLMToken(append([]byte{}, initTok...))
+		keep("spnego.ExtractNTLMToken", ex, err)
+	}
+	resp, err := spnego.CreateNegTokenResp(asn1.Enumerated(tc.State), asn1.ObjectIdentifier(tc.Mech), append([]byte{}, tok...))
+	keep("spnego.CreateNegTokenResp", resp, err)
+	if err == nil {
+		if r, err := spnego.ParseNegTokenResp(append([]byte{}, resp...)); err == nil && r != nil {
+			keep("spnego.ParseNegTokenResp ResponseToken", r.ResponseToken, nil)
+		}
+	}
+	if wrapped, err := spnego.CreateNegTokenResp(spnego.AcceptIncomplete, spnego.NtlmOID, append([]byte{}, wire...)); err == nil {
+		out, err := ctx.ProcessChallengeToken(wrapped)
+		keep("AuthContext.ProcessChallengeToken", out, err)
+	}
+	return ks
+}
+
+func checkKept(c keptCase) []vf.Finding {
+	first := keptRound(c.A, c.TokA)
+	keptRound(c.B, c.TokB)
+	var fs []vf.Finding
+	for _, k := range first {
+		if !bytes.Equal(k.now, k.was) {
+			i := 0
+			for i < len(k.now) && i < len(k.was) && k.now[i] == k.was[i] {
+				i++
+			}
+			fs = append(fs, vf.F(k.who, "returned-value-changed-by-later-call", "%d bytes as returned; after the same calls were made for other inputs the value differs from byte %d on (was %x, is %x)", len(k.was), i, k.was[i:min(len(k.was), i+16)], k.now[i:min(len(k.now), i+16)]))
+		}
+	}
+	return fs
+}
+
+func TestResultsKept(t *testing.T) {
+	s := vf.Begin(t, P, "results-kept")
+	genTok := func(t *rapid.T, label string) tokCase {
+		n := rapid.IntRange(1, 300).Draw(t, label+"Len")
+		if rapid.IntRange(0, 9).Draw(t, label+"Big") == 0 {
+			n = rapid.IntRange(301, 70000).Draw(t, label+"LenBig")
+		}
+		return tokCase{n, rapid.Byte().Draw(t, label+"Salt"), rapid.IntRange(0, 3).Draw(t, label+"State"), mechs[rapid.IntRange(0, 2).Draw(t, label+"Mech")]}
+	}
+	vf.Rapid(s, vf.N(1500, 25000), func(t *rapid.T) keptCase {
+		return keptCase{A: genChal(t), B: genChal(t), TokA: genTok(t, "tokA"), TokB: genTok(t, "tokB")}
+	}, checkKept, func(c keptCase) bool {
+		return !bytes.Equal(c.A.ServerChallenge, c.B.ServerChallenge) && (c.A.Domain != c.B.Domain || c.A.User != c.B.User || c.A.Workstation != c.B.Workstation)
+	})
+}
